@@ -59,7 +59,17 @@ void snoopy_error_handler (char const * const errorMsg)
 {
     const snoopy_configuration_t * CFG;
     char errorMsgFormatted[SNOOPY_ERROR_MSG_BUF_SIZE];
+    static __thread int errorDispatchInProgress = 0;
     errorMsgFormatted[0] = '\0';
+
+    /*
+     * Dispatching an error message may itself raise an error (i.e. when the
+     * syslog ident or the output file path does not fit its buffer) - never
+     * recurse, or the stack of the calling process is exhausted.
+     */
+    if (0 != errorDispatchInProgress) {
+        return;
+    }
 
     CFG = snoopy_configuration_get();
 
@@ -70,5 +80,7 @@ void snoopy_error_handler (char const * const errorMsg)
     snprintf(errorMsgFormatted, SNOOPY_ERROR_MSG_BUF_SIZE, "SNOOPY ERROR: %s", errorMsg);
     errorMsgFormatted[SNOOPY_ERROR_MSG_BUF_SIZE-1] = '\0';
 
+    errorDispatchInProgress = 1;
     snoopy_action_log_message_dispatch(errorMsg);
+    errorDispatchInProgress = 0;
 }
